@@ -44,6 +44,7 @@ class Variant:
     count: int = 1              # number of occurrences to replace (0 = all)
     also: list = field(default_factory=list)   # further (file, old, new) edits
     transform: object = None    # callable(source) -> new source | None (anchor lost)
+    patchfile: str = ""         # a unified diff file applied forwards (seeded changes)
 
 
 def T(vid, prop, file, old, new, **kw):
@@ -203,6 +204,10 @@ CATALOGUE = [
       "            recurrence[self.missing_value_indices, :] = 0\n            recurrence[:, self.missing_value_indices] = 0\n",
       "            recurrence[self.missing_value_indices, :] = 0\n",
       "T3/"),
+    B("c07-float-intermediate", "C07", TPYX,
+      "        int j, k, l\n        DFIELD_t sum\n        ndarray[DFIELD_t, ndim=2, mode='c'] distance = \\\n            np.zeros((ntime_x, ntime_y), dtype=DFIELD)",
+      "        int j, k, l\n        DFIELD_t sum\n        FIELD_t diff\n        ndarray[DFIELD_t, ndim=2, mode='c'] distance = \\\n            np.zeros((ntime_x, ntime_y), dtype=DFIELD)",
+      "T8/_manhattan_distance_matrix_crp"),
     B("c07-no-rebuild", "C07", "src/pyunicorn/timeseries/recurrence_network.py",
       "        A = self.R.copy()\n        A.flat[::self.N+1] = 0\n\n        #  Create a Network object interpreting the recurrence matrix as the\n        #  graph adjacency matrix. Recurrence networks are undirected by\n        #  definition.\n        Network.__init__(self, A, directed=False,\n                         silence_level=self.silence_level)\n\n    def set_fixed_local_recurrence_rate",
       "\n    def set_fixed_local_recurrence_rate", "T2/"),
@@ -212,6 +217,14 @@ CATALOGUE = [
     T("c07-fill-diagonal", "C07", "src/pyunicorn/timeseries/recurrence_network.py",
       "        A = self.R.copy()\n        A.flat[::self.N+1] = 0\n\n        #  Create a Network object interpreting the recurrence matrix as the\n        #  graph adjacency matrix. Recurrence networks are undirected by\n        #  definition.\n        Network.__init__(self, A, directed=False,",
       "        A = np.array(self.R)\n        np.fill_diagonal(A, 0)\n        Network.__init__(self, A, directed=False,"),
+    B("c08-mask-by-line-index", "C08", TPYX,
+      "    for i in range(N):\n        for j in range(i2J(i, N)):\n            I = ij2I(i, j, N)",
+      "    for i in range(N):\n        if missing_values and M[i]:\n            continue\n        for j in range(i2J(i, N)):\n            I = ij2I(i, j, N)",
+      "L8/_line_dist/index-role"),
+    B("c08-float-eps", "C08", TPYX,
+      "ndarray[LAG_t, ndim=2] R, ndarray[DFIELD_t, ndim=2] E, double eps, int dim,",
+      "ndarray[LAG_t, ndim=2] R, ndarray[DFIELD_t, ndim=2] E, float eps, int dim,",
+      "L9/_line_dist/narrow"),
     B("c08-wrong-linetype", "C08", TPYX,
       "        n_time, hist, null_R, E, eps, dim, metric_supremum, True, M_null, False,\n        i2J_diagline, ij2I_diagline, True)",
       "        n_time, hist, null_R, E, eps, dim, metric_supremum, True, M_null, False,\n        i2J_vertline, ij2I_diagline, True)",
@@ -420,6 +433,32 @@ def fix_reverts(known_path=None):
     return out
 
 
+def seed_variants(seed_dir=None):
+    """Every confirmed seeded change is a break variant of each check that is
+    recorded (meta.json: checked_against.violations, written by
+    tools/seedmatrix.py) as reporting it; the expected fragment is the rule."""
+    import glob
+    seed_dir = seed_dir or os.path.join(VERIF, "seeded")
+    out = []
+    for d in sorted(glob.glob(os.path.join(seed_dir, "*"))):
+        mp, pp_ = os.path.join(d, "meta.json"), os.path.join(d, "patch.diff")
+        if not (os.path.exists(mp) and os.path.exists(pp_)):
+            continue
+        try:
+            with open(mp, encoding="utf-8") as f:
+                m = json.load(f)
+        except ValueError:
+            continue
+        viol = m.get("checked_against", {}).get("violations", {})
+        for prop, keys in sorted(viol.items()):
+            if not keys:
+                continue
+            rule = "/".join(keys[0].split("/")[:2]) + "/"
+            out.append(Variant(f"seed-{os.path.basename(d)}", prop, "break",
+                               patchfile=pp_, expect=rule))
+    return out
+
+
 def _scratch(root, repo):
     os.makedirs(root)
     subprocess.run(["rsync", "-a", "--exclude", "*.so", "--exclude", "__pycache__",
@@ -455,7 +494,14 @@ def run_variant(v: Variant, repo: str, tmproot: str, baseline_keys: dict):
             shutil.rmtree(w, ignore_errors=True)
     _scratch(w, repo)
     try:
-        if v.patch:
+        if v.patchfile:
+            with open(v.patchfile, encoding="utf-8") as f:
+                diff = f.read()
+            r = subprocess.run(["patch", "-s", "-p1", "--fuzz=3"], input=diff, cwd=w,
+                               capture_output=True, text=True)
+            if r.returncode != 0:
+                return v, "skipped", "seeded patch no longer applies to this tree"
+        elif v.patch:
             d = subprocess.run(["git", "-C", repo, "show", "--format=", v.patch],
                                capture_output=True, text=True)
             if d.returncode != 0:
@@ -530,7 +576,7 @@ def baseline(props, repo):
 
 def self_validate(prop: str, repo: str, jobs: int = 16):
     """Run all variants of `prop`; returns (results, summary)."""
-    variants = [v for v in CATALOGUE + fix_reverts() if v.prop == prop]
+    variants = [v for v in CATALOGUE + fix_reverts() + seed_variants() if v.prop == prop]
     variants.append(Variant("auto-rename-all-locals", prop, "autotwin"))
     variants.append(Variant("auto-reformat-python", prop, "autotwin"))
     variants.append(Variant("auto-rename-kernel-params", prop, "autotwin"))
